@@ -1119,6 +1119,88 @@ def e21(rep, src):
         rep.instance("E21", key + "@other", {"arms": "others"}, nontrivial=False)
 
 
+def e22(rep, src):
+    """The reader builds a set operation from its operands in the order they are written."""
+    rep.rule(
+        "E22",
+        "sql/relation.rs, the `ast::SetExpr::SetOperation { op, set_quantifier, left, right }` case: the Relation::set() builder gets `.left(..)` from the relation compiled from `left`, `.right(..)` from `right`, "
+        "`.operator(..)` from `op` and `.quantifier(..)` from `set_quantifier` (def-use through the tuple match and the `let` bindings of the arm)",
+        floor=4,
+        necessary="UNION and INTERSECT are symmetric, EXCEPT is not: `A EXCEPT B` compiled as `B EXCEPT A` has the other operand's column types and size, and renders another query",
+    )
+    arms = []
+    for f in src.find_fns(file="sql/relation.rs"):
+        if f.test or not f.body:
+            continue
+        for m in find(f.body, "match"):
+            for a in m["arms"]:
+                if a["pat"]["k"] == "struct" and a["pat"]["path"]["segs"][-1] == "SetOperation":
+                    arms.append((f, a))
+    if len(arms) != 1:
+        rep.undecidable("E22", "SetOperation", "expected one `ast::SetExpr::SetOperation { .. }` arm in sql/relation.rs, found %d" % len(arms), "src/sql/relation.rs")
+        return
+    f, a = arms[0]
+    key = "%s@SetOperation" % f.qual
+    env = {}
+    for fl in a["pat"].get("fields", []):
+        sub = fl.get("pat")
+        nm = sub["name"] if sub is not None and sub["k"] == "ident" else fl["name"]
+        if fl["name"] in ("left", "right", "op", "set_quantifier"):
+            env[nm] = {fl["name"]}
+
+    def labels(e):
+        out = set()
+        for y in walk(e):
+            if y["k"] == "path" and len(y["segs"]) == 1 and y["segs"][0] in env:
+                out |= env[y["segs"][0]]
+        return out
+
+    def bind(p, ls):
+        for b in pat_binds(p):
+            env[b] = set(ls)
+
+    def visit(n):
+        if isinstance(n, list):
+            for x in n:
+                visit(x)
+            return
+        if not isinstance(n, dict):
+            return
+        k = n.get("k")
+        if k == "let" and n.get("init") is not None:
+            visit(n["init"])
+            bind(n["pat"], labels(n["init"]))
+            return
+        if k == "match":
+            visit(n["e"])
+            for arm in n["arms"]:
+                if n["e"]["k"] == "tuple" and arm["pat"]["k"] == "tuple" and len(arm["pat"]["elems"]) == len(n["e"]["elems"]):
+                    for pe, se in zip(arm["pat"]["elems"], n["e"]["elems"]):
+                        bind(pe, labels(se))  # positional: the i-th pattern binds names from the i-th scrutinee component
+                else:
+                    bind(arm["pat"], labels(n["e"]))
+                visit(arm["body"])
+            return
+        if k == "if" and n["cond"].get("k") == "letcond":
+            bind(n["cond"]["pat"], labels(n["cond"]["e"]))
+        for v in n.values():
+            if isinstance(v, (dict, list)):
+                visit(v)
+
+    visit(a["body"])
+    got = {}
+    for m in find(a["body"], "mcall"):
+        if m["m"] in ("left", "right", "operator", "quantifier") and m["args"] and any(is_call_to(x, "Relation::set") for x in walk(m["recv"])) or (m["m"] in ("left", "right", "operator", "quantifier") and m["args"] and "set" in show(m["recv"], 0).lower() and path_of(m["recv"]) is not None):
+            got.setdefault(m["m"], set()).update(labels(m["args"][0]))
+    want = {"left": {"left"}, "right": {"right"}, "operator": {"op"}, "quantifier": {"set_quantifier"}}
+    for slot, w in want.items():
+        rep.instance("E22", "%s.%s" % (key, slot), {"slot": slot, "comes_from": sorted(got.get(slot, []))})
+        if slot not in got:
+            rep.undecidable("E22", "%s.%s" % (key, slot), "no `.%s(..)` on the Relation::set() builder of the arm" % slot, "src/%s:%d" % (f.file, a["l"]))
+        elif got[slot] != w:
+            rep.violation("E22", "%s.%s" % (key, slot), "the %s of the compiled set operation comes from %s of the parsed one, expected %s" % (slot, sorted(got[slot]) or "nothing", sorted(w)), "src/%s:%d" % (f.file, a["l"]))
+
+
 def e19(rep, src):
     """ORDER BY direction survives parse -> render -> parse."""
     rep.rule(
@@ -1212,6 +1294,122 @@ def e19(rep, src):
         rep.violation("E19", key, "the direction of a sort key is rendered as `%s`: neither always explicit nor omitted only for ascending keys" % t, fm[0].where())
 
 
+def e23(rep, src):
+    """The column list of a CTE (`WITH t (a, b) AS ..`) is recorded whenever it is not empty."""
+    rep.rule(
+        "E23",
+        "sql/query_aliases.rs IntoQueryAliasesVisitor::query: the column list of a CTE is inserted for every CTE whose list has at least one column - every test on `<cte>.alias.columns` that guards "
+        "the insert (enclosing `if`, `filter` closure) is true for lists of 1, 2 and 3 columns",
+        floor=3,
+        necessary="the renderer names the columns of every CTE through this list, and for a set operation (`SELECT * FROM l UNION SELECT * FROM r`) it is the only place where the names appear: "
+        "a one-column list that is dropped gives the read-back relation another column name, and a parent that refers to the column is refused",
+    )
+    fs = [f for f in src.find_fns(name="query", file="sql/query_aliases.rs") if "IntoQueryAliasesVisitor" in (f.self_ty or "") and f.body and not f.test]
+    if len(fs) != 1:
+        rep.undecidable("E23", "IntoQueryAliasesVisitor::query", "expected one IntoQueryAliasesVisitor::query in sql/query_aliases.rs, found %d" % len(fs), "src/sql/query_aliases.rs")
+        return
+    f = fs[0]
+
+    # locals that stand for the list: `let column_aliases = &cte.alias.columns;`
+    aliases = set()
+    for st in find(f.body, "let"):
+        i = st.get("init")
+        if i is not None and st["pat"]["k"] == "ident":
+            while i["k"] in ("ref", "paren") or (i["k"] == "unary" and i["op"].strip() in ("&", "*")) or (i["k"] == "mcall" and i["m"] in ("as_ref", "clone", "as_slice") and not i["args"]):
+                i = i["e"] if "e" in i else i["recv"]
+            if i["k"] == "field" and i.get("name") == "columns":
+                aliases.add(st["pat"]["name"])
+
+    def mentions_columns(e):
+        return any((x["k"] == "field" and x.get("name") == "columns") or (x["k"] == "path" and len(x["segs"]) == 1 and x["segs"][0] in aliases) for x in walk(e))
+
+    class Unknown(Exception):
+        pass
+
+    def is_columns(e):
+        while e["k"] in ("ref", "paren") or (e["k"] == "unary" and e["op"].strip() in ("&", "*")):
+            e = e["e"]
+        return (e["k"] == "field" and e.get("name") == "columns") or (e["k"] == "path" and len(e["segs"]) == 1 and e["segs"][0] in aliases)
+
+    def num(e, n):
+        while e["k"] == "paren":
+            e = e["e"]
+        if e["k"] == "lit" and e.get("t") == "int":
+            return int(str(e["v"]).rstrip("usize").rstrip("_") or 0)
+        if e["k"] == "mcall" and e["m"] in ("len", "count") and not e["args"]:
+            r = e["recv"]
+            while r["k"] == "mcall" and r["m"] in ("iter", "into_iter") and not r["args"]:
+                r = r["recv"]
+            if is_columns(r):
+                return n
+        raise Unknown(show(e, 50))
+
+    def ev(e, n):
+        k = e["k"]
+        if k == "paren":
+            return ev(e["e"], n)
+        if k == "unary" and e["op"].strip() == "!":
+            return not ev(e["e"], n)
+        if k == "binary":
+            op = e["op"].strip()
+            if op in ("&&", "||"):
+                parts = []
+                for side in (e["lhs"], e["rhs"]):
+                    parts.append(ev(side, n) if mentions_columns(side) else None)
+                known = [p for p in parts if p is not None]
+                if op == "&&":
+                    return all(known)  # a conjunct that does not read the list cannot make the test true for it
+                if None in parts:
+                    raise Unknown(show(e, 50))
+                return any(known)
+            if op in ("<", "<=", ">", ">=", "==", "!="):
+                a, b = num(e["lhs"], n), num(e["rhs"], n)
+                return {"<": a < b, "<=": a <= b, ">": a > b, ">=": a >= b, "==": a == b, "!=": a != b}[op]
+        if k == "mcall" and e["m"] == "is_empty" and not e["args"] and is_columns(e["recv"]):
+            return n == 0
+        raise Unknown(show(e, 50))
+
+    inserts = []
+
+    def descend(n, guards):
+        if isinstance(n, list):
+            for x in n:
+                descend(x, guards)
+            return
+        if not isinstance(n, dict):
+            return
+        k = n.get("k")
+        if k == "if" and n["cond"]["k"] != "letcond" and mentions_columns(n["cond"]):
+            descend(n["then"], guards + [(n["cond"], True)])
+            if n.get("else") is not None:
+                descend(n["else"], guards + [(n["cond"], False)])
+            return
+        if k == "mcall" and n["m"] == "insert" and len(n["args"]) == 2 and mentions_columns(n["args"][1]):
+            inserts.append((n, list(guards)))
+        for key, v in n.items():
+            if key not in ("k", "l") and isinstance(v, (dict, list)):
+                descend(v, guards)
+
+    descend(f.body, [])
+    filters = [(m["args"][0]["body"], True) for m in find(f.body, "mcall") if m["m"] == "filter" and m["args"] and m["args"][0]["k"] == "closure" and mentions_columns(m["args"][0]["body"])]
+    key = "IntoQueryAliasesVisitor::query@cte-columns"
+    if len(inserts) != 1:
+        rep.undecidable("E23", key, "expected one `.insert(<cte query>, Some(<cte>.alias.columns..))`, found %d" % len(inserts), f.where())
+        return
+    ins, guards = inserts[0]
+    guards = guards + filters
+    for n in (1, 2, 3):
+        try:
+            kept = all((ev(c, n) if pol else not ev(c, n)) for c, pol in guards)
+        except Unknown as u:
+            rep.undecidable("E23", key, "a test on the column list cannot be evaluated: `%s`" % u, f.where())
+            return
+        rep.instance("E23", "%s:%d" % (key, n), {"columns": n, "recorded": kept, "tests": [show(c, 50) for c, _ in guards]})
+        if not kept:
+            rep.violation("E23", key, "a CTE column list with %d column%s is not recorded (tests: %s): the CTE is read back with the names of its body" % (n, "" if n == 1 else "s", [show(c, 50) for c, _ in guards]), "src/sql/query_aliases.rs:%d" % ins["l"])
+            return
+
+
 def run(rep):
     rep.explanation = (
         "Table agreement and structural rules of the render / read round trip on the default (PostgreSQL) path. E3/E4 join the renderer table (variant -> translator method -> SQL spelling, read from the type-resolved MIR) "
@@ -1235,5 +1433,7 @@ def run(rep):
     e19(rep, src)
     e20(rep, src)
     e21(rep, src)
+    e22(rep, src)
+    e23(rep, src)
     rep.assume("sqlparser 0.46 parses NAME(args) into ast::Expr::Function with that name, except the keyword functions listed in KEYWORD_FUNCTIONS")
     rep.assume("operators are rendered through same-named ast::BinaryOperator / UnaryOperator variants (read: function_match_constructor!)")
